@@ -26,6 +26,10 @@ type RdbReplay struct {
 	KeyExists       string
 	KeyExistsLog    bool
 	ReplaceHashTag  bool
+
+	// key of a split value whose first chunk was ignored because the key exists
+	// on the target (KeyExists == "ignore"): its remaining chunks are skipped too
+	ignoredKey []byte
 }
 
 func (rr *RdbReplay) Replay(e *rdb.BinEntry) (err error) {
@@ -61,6 +65,7 @@ func (rr *RdbReplay) Replay(e *rdb.BinEntry) (err error) {
 			return fmt.Errorf("rdb module object requires RESTORE replay for key %s", e.Key)
 		}
 		if e.FirstBin() {
+			rr.ignoredKey = nil
 			exist, err := common.Bool(rr.Client.Do("exists", e.Key))
 			if err != nil {
 				return err
@@ -79,10 +84,17 @@ func (rr *RdbReplay) Replay(e *rdb.BinEntry) (err error) {
 					if rr.KeyExistsLog {
 						log.Warnf("output key exist, ignore it : %s", e.Key)
 					}
+					// keep the existing key untouched : do not merge the snapshot's value into it
+					if e.ObjectParser.IsSplited() {
+						rr.ignoredKey = append([]byte{}, e.Key...)
+					}
+					return nil
 				case "error":
 					return fmt.Errorf("output key exist : %s", e.Key)
 				}
 			}
+		} else if rr.ignoredKey != nil && bytes.Equal(rr.ignoredKey, e.Key) {
+			return nil
 		}
 
 		err = restoreBigRdbEntry(rr.Client, e)
